@@ -63,16 +63,25 @@ class Run:
         self.nontrivial += res["nontrivial"]
         self.states += res["states"]
         self.transitions += res["transitions"]
+        byidx = {}
         for idx, pred in res["bad"]:
-            meta = self.event_meta[idx]
-            rec = {"property": self.prop, "predicate": pred, "tier": self.tier, "seed": common.seed()}
-            rec.update(meta)
-            rec["event"] = self.events[idx]
-            self.violation(rec)
+            byidx.setdefault(idx, set()).add(pred)
+        for idx in sorted(byidx):
+            for pred, cause in self.classify(byidx[idx]):
+                meta = self.event_meta[idx]
+                rec = {"property": self.prop, "predicate": pred, "cause": cause, "tier": self.tier,
+                       "seed": common.seed()}
+                rec.update(meta)
+                rec["event"] = self.events[idx]
+                self.violation(rec)
         common.log("[trace] %s: %d events validated, %d bad, %d non-trivial" % (
             self.prop, res["events"], len(res["bad"]), res["nontrivial"]))
         self.events = []
         self.event_meta = []
+
+    def classify(self, preds):
+        """failing predicates of one event -> [(predicate, cause)] to report"""
+        return [(p, None) for p in sorted(preds)]
 
     def violation(self, rec):
         f = common.match_finding(self.prop, rec)
